@@ -171,6 +171,11 @@ def gen_case(rng, tier, avoid):
             body = body + [{'op': 'add', 'lf': gen.pick(rng, lfs_before), 'kind': 'zone', 'h': 'hc_rej', 'name': 'not hc compatible',
                             'kwargs': {}, 'propagate': True, 'c': 9, 'bad': 'rejected_by_mode'}]
         hist = hist[:a] + [{'op': 'hc_block', 'form': rng.choice(['with', 'decorator']), 'body': body}] + hist[b:]
+    if rng.random() < 0.12:
+        # the environment of the process changes in mid-history: logging configuration, the process time zone
+        envop = rng.choice([{'op': 'set_log', 'mode': rng.choice(['error', 'disabled', 'default'])},
+                            {'op': 'set_tz', 'tz': rng.choice(['UTC', 'Asia/Kolkata', 'America/New_York', 'Europe/Oslo'])}])
+        hist.insert(rng.randint(0, len(hist)), envop)
     if tier == 'thorough' and rng.random() < 0.01:
         hist.insert(rng.randint(0, len(hist)), {'op': 'flood', 'n': 70000})
     return {'scenario': {'env': {'tz': rng.choice(['UTC', 'UTC', 'Asia/Kolkata', 'America/New_York'])}, 'history': hist},
